@@ -274,6 +274,36 @@ impl<'a> Iterator for LyingIter<'a> {
     }
 }
 
+/// A legal but NOT fused iterator: yields `a`, then `None` once, then `b`, then `None` for ever.
+/// Used only to confirm on the real code what the iterator-level model (lean/MinLex/Model/Iter.lean) predicts
+/// for iterators outside C16's "well-behaved" class (the parser calls `next()` again after a `None`).
+#[derive(Clone)]
+struct ResumingIter<'a> {
+    a: &'a [u8],
+    b: &'a [u8],
+    pos: usize,
+}
+impl<'a> Iterator for ResumingIter<'a> {
+    type Item = &'a u8;
+    fn next(&mut self) -> Option<&'a u8> {
+        if self.pos < self.a.len() {
+            self.pos += 1;
+            self.a.get(self.pos - 1)
+        } else if self.pos == self.a.len() {
+            self.pos += 1;
+            None
+        } else {
+            let i = self.pos - self.a.len() - 1;
+            if i < self.b.len() {
+                self.pos += 1;
+                self.b.get(i)
+            } else {
+                None
+            }
+        }
+    }
+}
+
 #[inline(never)]
 fn poison_stack(depth: u32, pat: u8) -> u64 {
     let mut buf = [pat; 2048];
@@ -721,6 +751,27 @@ fn run_case(line: &str) -> String {
             with_float!(t[1], F, {
                 let v = shapes::<F>(&int, &frac, e);
                 v.iter().map(|b| format!("{:x}", b)).collect::<Vec<_>>().join(" ")
+            })
+        },
+        // nf <fmt> <int_a> <int_b> <frac_a> <frac_b> <exp>: both iterators non-fused (a, None, b, None, None, ...)
+        "nf" => {
+            let (ia, ib, fa, fb) = (decode_bytes(t[2]), decode_bytes(t[3]), decode_bytes(t[4]), decode_bytes(t[5]));
+            let e = parse_i32(t[6]);
+            with_float!(t[1], F, {
+                let v = minimal_lexical::parse_float::<F, _, _>(
+                    ResumingIter {
+                        a: &ia,
+                        b: &ib,
+                        pos: 0,
+                    },
+                    ResumingIter {
+                        a: &fa,
+                        b: &fb,
+                        pos: 0,
+                    },
+                    e,
+                );
+                format!("v {:x}", Float::to_bits(v))
             })
         },
         // sq <fmt> <int1> <frac1> <e1> <int2> <frac2> <e2> ... : the inputs parsed in order on THIS thread, then each
